@@ -112,6 +112,13 @@ def check(c):
         out = w.transform(X)
         if out.ndim != 2 or not numpy.allclose(out, direct.reshape(len(X), -1), rtol=0, atol=1e-12):
             return dict(**{"class": "learner-output"}, what="transform differs from the model's %s" % c["method"])
+        # batches of 1, 2, 3 rows and of exactly as many rows as the output has columns (a square output must not be read the other way round)
+        for nb in sorted({1, 2, 3, out.shape[1]}):
+            Xb = X[5:5 + nb]
+            db = getattr(factory().fit(X, y), c["method"])(Xb)
+            ob = w.transform(Xb)
+            if ob.shape != (nb, out.shape[1]) or not numpy.allclose(ob, numpy.asarray(db).reshape(nb, -1), rtol=0, atol=1e-12):
+                return dict(**{"class": "learner-output"}, what="a batch of %d rows: transform differs from the model's %s" % (nb, c["method"]))
         return None
     orig = factory().fit(X, y)
     before = getattr(orig, c["method"])(X)
